@@ -13,10 +13,11 @@
    table's tmpl_length, a store outside it is Fault; the internal_error of the reader's `default:`
    branch is Fault as well. "Never Fault" is the model-level statement of "no access outside".
 
-   Quirks reproduced as they are: C-string semantics of current_key (an input key with an embedded
-   NUL is truncated by strlen), the advancing first_key cursor, `break` in find_key_match on the
+   The model follows the code after the fix commits a215a35 (input keys holding NUL / ':' / '[' / '*'
+   are skipped) and 100e504 (raw type tests use ==). Quirks reproduced as they are: the advancing
+   first_key cursor, `break` in find_key_match on the
    first table key that properly extends the searched one, the raw type of "x[]*" elements being
-   taken from key[base+1] == ']' (always the untyped raw_bencode), is_raw_map's ">= 'd'" test. *)
+   taken from key[base+1] == ']' (always the untyped raw_bencode). *)
 From Coq Require Import List NArith ZArith Bool.
 From LTV Require Import Common.Bytes.
 From LTV.C07 Require Import ParamsGen Model.
@@ -200,6 +201,9 @@ Fixpoint sm_list (tbl : ktable) (fuel : nat) (fk : nat) (mk : bytes) (base : N) 
 
 Definition two64 : N := 18446744073709551616.
 
+(* static_map_mapping_type::is_not_key_char *)
+Definition is_not_key_char (c : N) : bool := (c =? 0) || (c =? ch_colon) || (c =? ch_lbr) || (c =? ch_star).
+
 (* the main loop of static_map_read_bencode_c *)
 Fixpoint sm_loop (tbl : ktable) (fuel : nat) (st : smst) (l : bytes) : res entries :=
   match fuel with
@@ -218,8 +222,9 @@ Fixpoint sm_loop (tbl : ktable) (fuel : nat) (st : smst) (l : bytes) : res entri
             | Ok rk rest =>
                 let nk := top_key st in
                 let klen := N.of_nat (length rk) in
-                (* raw_key.size() >= max_key_size - next_key   (size_t arithmetic) *)
-                if (max_key + two64 - nk) mod two64 <=? klen then
+                (* raw_key.size() >= max_key_size - next_key   (size_t arithmetic), or the key holds a
+                   NUL / ':' / '[' / '*' (find_if is_not_key_char): never a component of a table key *)
+                if ((max_key + two64 - nk) mod two64 <=? klen) || existsb is_not_key_char rk then
                   match skip_c rest with
                   | Ok _ rest' => sm_loop tbl f st rest'
                   | Reject => Reject | Fault => Fault | OutOfFuel => OutOfFuel
@@ -338,7 +343,6 @@ Definition enc_sval (sv : sval) : bytes :=
   | SRaw RawM b => ch_d :: b ++ [ch_e]
   end.
 
-Definition is_not_key_char (c : N) : bool := (c =? 0) || (c =? ch_colon) || (c =? ch_lbr) || (c =? ch_star).
 
 (* find_key_end: first position >= pos (< 16) holding a non-key character, else 16 *)
 Fixpoint find_key_end (fuel : nat) (k : bytes) (pos : N) : N :=
